@@ -47,6 +47,12 @@ pub fn hexify(buf: &[u8]) -> String {
 }
 /// Convert a hex string into a byte vector
 pub fn unhexify(s: &str) -> Result<Vec<u8>, ParseIntError> {
+    // Only an even number of ASCII hex digits is valid input. Anything else (odd length,
+    // signs, non-hex or multi-byte characters) is an error instead of a slicing panic or a
+    // leniently parsed "+f".
+    if s.len() % 2 != 0 || !s.bytes().all(|b| b.is_ascii_hexdigit()) {
+        return Err(u8::from_str_radix("", 16).unwrap_err());
+    }
     (0..s.len())
         .step_by(2)
         .map(|i| u8::from_str_radix(&s[i..i + 2], 16))
